@@ -47,6 +47,38 @@ type Script struct {
 	Lead string `json:"lead"`
 }
 
+// scriptWire is the JSON form: byte slices (base64), because scripts may
+// contain bytes that are not valid UTF-8 and JSON strings would mangle them.
+type scriptWire struct {
+	Stmts [][]byte `json:"stmts"`
+	Seps  [][]byte `json:"seps"`
+	Lead  []byte   `json:"lead"`
+	Text  string   `json:"text_for_reading"`
+}
+
+func (s *Script) MarshalJSON() ([]byte, error) {
+	w := scriptWire{Lead: []byte(s.Lead), Text: s.Text()}
+	for i := range s.Stmts {
+		w.Stmts = append(w.Stmts, []byte(s.Stmts[i]))
+		w.Seps = append(w.Seps, []byte(s.Seps[i]))
+	}
+	return json.Marshal(&w)
+}
+
+func (s *Script) UnmarshalJSON(b []byte) error {
+	var w scriptWire
+	if err := json.Unmarshal(b, &w); err != nil {
+		return err
+	}
+	s.Lead = string(w.Lead)
+	s.Stmts, s.Seps = nil, nil
+	for i := range w.Stmts {
+		s.Stmts = append(s.Stmts, string(w.Stmts[i]))
+		s.Seps = append(s.Seps, string(w.Seps[i]))
+	}
+	return nil
+}
+
 func (s *Script) Text() string {
 	var sb strings.Builder
 	sb.WriteString(s.Lead)
@@ -59,9 +91,9 @@ func (s *Script) Text() string {
 
 // Expect is the model's expectation for a script.
 type Expect struct {
-	Stdout   string   `json:"stdout"`
-	Failures int      `json:"failures"`
-	PerStmt  []string `json:"per_stmt"` // output of each statement ("" for lets and failures)
+	StdoutB  []byte `json:"stdout"`
+	Stdout   string `json:"-"`
+	Failures int    `json:"failures"`
 }
 
 func isLet(stmt string) bool {
@@ -80,18 +112,16 @@ func model(s *Script) Expect {
 			} else {
 				prelude += st + ";\n"
 			}
-			e.PerStmt = append(e.PerStmt, "")
 			continue
 		}
 		sql, err := pql.Compile(prelude + st)
 		if err != nil {
 			e.Failures++
-			e.PerStmt = append(e.PerStmt, "")
 			continue
 		}
-		e.PerStmt = append(e.PerStmt, sql+"\n\n")
 		e.Stdout += sql + "\n\n"
 	}
+	e.StdoutB = []byte(e.Stdout)
 	return e
 }
 
@@ -110,10 +140,11 @@ func modelMain(args []string) {
 	os.WriteFile(args[1], ob, 0o644)
 }
 
-var letsOK = []string{"let x = 5", "let lim = 2", "let s = 'a;b'", "let x = x + 1", "let y = -3", "let z = strcat('a', \"b\")", "let lim = lim * 2", "let t = true"}
+var letsOK = []string{"let x = 5", "let lim = 2", "let s = 'a;b'", "let x = x + 1", "let y = -3", "let z = strcat('a', \"b\")", "let lim = lim * 2", "let t = true",
+	"let s = 'a\x00b'", "let s = \"tab\\there \\\\ \\\" q\"", "let s = 'del\x7f cr\rmid nbsp\u00a0 bad\xff'", "let s = 'it\\'s'", "let x = 5", "let lim = 2"}
 var letsBad = []string{"let q = nosuch", "let = 5", "let w = (", "let a.b = 1", "let v = `x`", "let u = T.a", "let 5 = x"}
 var queries = []string{"T | where a == x | take lim", "T | count", "T | where s == 'a;b' // c;d\n| take 1", "T\n| project a, b\n| sort by a", "U | join (T) on k | where x > 1", "T | extend z = y * 2",
-	"T | where a == -y", "T | top lim by a", "T | where t and a in (x, y)", "T | summarize n = count() by k | where n > x", "T | where b == \"q;\\\"\"", "`T;1` | take 1", "T | extend a+x"}
+	"T | where a == -y", "T | top lim by a", "T | where t and a in (x, y)", "T | summarize n = count() by k | where n > x", "T | where b == \"q;\\\"\"", "`T;1` | take 1", "T | extend a+x", "T | where c == s", "T | project s, z", "T | where a == x | take lim"}
 var invalid = []string{"T | where (", "T | bogus", "!", "T | take 1.5", "T | where 'unterminated\n", "T U", "T | where a ==", "| count", "T | join (U) on"}
 var seps = []string{"; ", ";\n", ";\n\n// a comment; with a semicolon\n", " ;\n", ";\r\n", ";\n   \n", "; // trailing comment\n", ";\t"}
 
@@ -159,9 +190,54 @@ func chainScript(rng *rand.Rand) *Script {
 	return s
 }
 
+// repeatScript: the same statement text several times with lets changing in
+// between, and lets repeated verbatim after something they depend on changed.
+func repeatScript(rng *rand.Rand) *Script {
+	s := &Script{}
+	sep := []string{";\n", "; ", ";\n\n"}[rng.Intn(3)] // uniform, so that repeated pieces are byte-identical
+	add := func(st string) {
+		s.Stmts = append(s.Stmts, st)
+		s.Seps = append(s.Seps, sep)
+	}
+	q := []string{"T | where a == x", "T | take x", "T | extend v = x + y", "T | where a == x | project a, x"}[rng.Intn(4)]
+	switch rng.Intn(3) {
+	case 0:
+		add(q)
+		add("let x = 1")
+		add(q)
+		add("let x = 2")
+		add(q)
+		add("let y = x")
+		add(q)
+	case 1:
+		add("let x = 1")
+		add("let x = 2")
+		add("let x = 1")
+		add(q)
+		add("let x = 2")
+		add(q)
+	default:
+		add("let x = 1")
+		add("let y = x")
+		add(q)
+		add("let x = 2")
+		add("let y = x")
+		add(q)
+		add("let y = x")
+		add(q)
+	}
+	if rng.Intn(2) == 0 {
+		s.Seps[len(s.Seps)-1] = ""
+	}
+	return s
+}
+
 func genScript(rng *rand.Rand) *Script {
-	if rng.Intn(3) == 0 {
+	switch rng.Intn(8) {
+	case 0, 1:
 		return chainScript(rng)
+	case 2:
+		return repeatScript(rng)
 	}
 	n := 1 + rng.Intn(6)
 	s := &Script{}
@@ -283,6 +359,7 @@ func run(c *mon.Custom) {
 				return
 			}
 			for i := range es {
+				es[i].Stdout = string(es[i].StdoutB)
 				expects[b+i] = &es[i]
 			}
 		}(b, end)
@@ -382,6 +459,10 @@ func checkDelivery(c *mon.Custom, cli string, s *Script, e *Expect, delivery str
 	case "outfile":
 		args = []string{"-o", "out.sql", write("script.pql", text)}
 		outFile = filepath.Join(dir, "out.sql")
+		if rng.Intn(2) == 0 {
+			// the output file already exists and is longer than the new output
+			write("out.sql", strings.Repeat("-- stale content of an earlier run\n", 400))
+		}
 	}
 	r := runCLI(cli, args, stdin, dir)
 	key := fmt.Sprintf("%s|%q", delivery, text)
@@ -452,6 +533,7 @@ func faults(c *mon.Custom, cli, self string, rng *rand.Rand) {
 		c.Inconclusive("model_process_failed")
 		return
 	}
+	es[0].Stdout = string(es[0].StdoutB)
 	pre := es[0].Stdout
 	check := func(name string, args []string, stdin string, wantStdout string, what string) {
 		r := runCLI(cli, args, stdin, dir)
@@ -489,6 +571,9 @@ func faults(c *mon.Custom, cli, self string, rng *rand.Rand) {
 	os.WriteFile(filepath.Join(dir, "ok.pql"), []byte(before.Text()), 0o644)
 	check("directory", []string{"adir"}, "", "", "FILE is a directory")
 	check("directory-after-file", []string{"ok.pql", "adir"}, "", pre, "the second FILE is a directory")
+	os.WriteFile(filepath.Join(dir, "last.pql"), []byte("T | count;\n"), 0o644)
+	check("directory-between-files", []string{"ok.pql", "adir", "last.pql"}, "", pre, "the second of three FILEs is a directory and cannot be read")
+	check("directory-first-of-two", []string{"adir", "last.pql"}, "", "", "the first of two FILEs is a directory and cannot be read")
 	// a missing file
 	check("missing-file", []string{"ok.pql", "no-such-file.pql"}, "", "", "the second FILE does not exist")
 	// strace-injected EIO on the K-th read of the input file
@@ -498,10 +583,15 @@ func faults(c *mon.Custom, cli, self string, rng *rand.Rand) {
 	}
 	big := before.Text() + strings.Repeat("T | count;\nT\n| count;\n", 800) // several 4 KiB reads, cut inside statements
 	os.WriteFile(filepath.Join(dir, "big.pql"), []byte(big), 0o644)
-	for k := 1; k <= 3; k++ {
+	for k := 1; k <= 4; k++ {
 		logf := filepath.Join(dir, fmt.Sprintf("strace%d.log", k))
-		cmd := exec.Command("timeout", "-s", "KILL", "60", "strace", "-f", "-o", logf, "-P", filepath.Join(dir, "big.pql"), "-e", "trace=read",
-			"-e", fmt.Sprintf("inject=read:error=EIO:when=%d", k), cli, "big.pql")
+		cliArgs := []string{"big.pql"}
+		if k == 4 {
+			// the failing file is followed by a readable one
+			cliArgs = []string{"big.pql", "last.pql"}
+		}
+		cmd := exec.Command("timeout", append([]string{"-s", "KILL", "60", "strace", "-f", "-o", logf, "-P", filepath.Join(dir, "big.pql"), "-e", "trace=read",
+			"-e", fmt.Sprintf("inject=read:error=EIO:when=%d", min(k, 2)), cli}, cliArgs...)...)
 		cmd.Dir = dir
 		var so, se bytes.Buffer
 		cmd.Stdout, cmd.Stderr = &so, &se
@@ -578,6 +668,7 @@ func replay(c *mon.Custom, raw json.RawMessage) {
 		c.Inconclusive("model_process_failed")
 		return
 	}
+	es[0].Stdout = string(es[0].StdoutB)
 	for i := int64(0); i < 8; i++ {
 		// the cut positions of multi-file deliveries are seeded: try several
 		checkDelivery(c, cli, rc.Script, &es[0], rc.Delivery, gen.RNG(i, "delivery"), fmt.Sprintf("replay%d", i))
